@@ -452,8 +452,9 @@ func runCase(r *h.Run, c caseT) {
 		atomic.StoreInt64(&w.pol.Budget, 1<<40)
 		w.pol.Kick(w.fd)
 	}
+	finalDrained := true
 	if !w.closed && !w.failed {
-		w.drainAll()
+		finalDrained = w.drainAll()
 	}
 	_ = w.cn.Close()
 	select {
@@ -466,7 +467,12 @@ func runCase(r *h.Run, c caseT) {
 		return
 	}
 	// the stream itself must still be intact (C01 oracle, prefix when overflow closed it)
-	if is := outb.CheckStream(w.calls, stream, !w.closed); is != nil {
+	if !finalDrained && !w.closed {
+		// the queue was not empty when the harness closed the connection: the stream is a prefix
+		// at best, and whether the drain stalled is C04's question
+		r.Inconclusive(fmt.Sprintf("case %d: final drain did not complete (C04 decides stalls); stream checked as a prefix", c.Index))
+	}
+	if is := outb.CheckStream(w.calls, stream, !w.closed && finalDrained); is != nil {
 		c2 := c
 		c2.Trace = w.trace
 		r.Violate(fmt.Sprintf("c17:%s:stream:%s", c.Cfg.Mode, is.Sig), is.Detail, c2)
